@@ -215,7 +215,7 @@ fn main() {
     run.assume("Miri runs with -Zmiri-disable-stacked-borrows: the property speaks about out-of-bounds and use-after-free accesses, not about the (experimental) aliasing model, which the library's deliberate 'two references, disjoint use' pattern does not satisfy");
     run.assume("Miri and AddressSanitizer are monitors on the enumerated executions, not deciding techniques; the sanitizer build instruments Rust code of the harness and the repository crates (not the C/C++ reference libraries, not std)");
     run.finish(
-        &format!("all operation sequences of length <= {} over 18 operations (write 0/1/3, extend from exact-size iterators and from iterators whose size hint is inexact, reader fill 0/1/3, a reader that claims one byte more than it was given, five nested-view uses incl. such a reader, early exit, query) x take/drop of the view, on every backing store (Vec with capacity 0..4 and length 0..2, ArrayVec<4>, slice, slice reference, capped views of each with every cap) against a Vec-with-capacity reference model with canaries (depth 2 first in a child process, so that an abort is attributed to a case); Miri on the same enumerator (depth {}); thorough: AddressSanitizer build of this enumerator and of the C05/C06/C07/C11/C16/C17 quick enumerators", if thorough { 4 } else { 3 }, miri_depth),
+        &format!("all operation sequences of length <= {} over 20 operations (write 0/1/3, extend from exact-size iterators, from iterators whose size hint is inexact and from one that is not fused, a reader handed the view itself, reader fill 0/1/3, a reader that claims one byte more than it was given, five nested-view uses incl. such a reader, early exit, query) x take/drop of the view, on every backing store (Vec with capacity 0..4 and length 0..2, ArrayVec<4>, slice, slice reference, capped views of each with every cap) against a Vec-with-capacity reference model with canaries (depth 2 first in a child process, so that an abort is attributed to a case); Miri on the same enumerator (depth {}); thorough: AddressSanitizer build of this enumerator and of the C05/C06/C07/C11/C16/C17 quick enumerators", if thorough { 4 } else { 3 }, miri_depth),
         true,
     );
 }
